@@ -45,12 +45,14 @@ class Raised(Exception):
 
 
 class Evaluator:
-    def __init__(self, env, arith=False, funcs=None, leaf=None, isinstance_tags=None):
+    def __init__(self, env, arith=False, funcs=None, leaf=None, isinstance_tags=None, call_hook=None, store_hook=None):
         self.env = dict(env)
         self.arith = arith
         self.funcs = funcs or {}
         self.leaf = leaf          # callback(node) -> value or NotImplemented, tried first
         self.tags = isinstance_tags or {}
+        self.call_hook = call_hook    # callback(evaluator, call_node) -> value or NotImplemented (effects are recorded by the rule)
+        self.store_hook = store_hook  # callback(evaluator, target_node, value) -> True if handled
 
     def ev(self, e):
         if self.leaf is not None:
@@ -137,7 +139,13 @@ class Evaluator:
         return tuple(self.ev(x) for x in e.elts)
 
     def ev_Call(self, e):
+        if self.call_hook is not None:
+            v = self.call_hook(self, e)
+            if v is not NotImplemented:
+                return v
         name = norm(e.func)
+        if isinstance(e.func, ast.Attribute) and e.func.attr == 'bit_length' and not e.args and self.arith:
+            return int(self.ev(e.func.value)).bit_length()
         if name == 'isinstance' and len(e.args) == 2:
             v = self.ev(e.args[0])
             t = norm(e.args[1])
@@ -178,6 +186,11 @@ class Evaluator:
                 for t, v in zip(st.targets[0].elts, vals):
                     self.env[t.id] = v
             elif isinstance(st, ast.Pass):
+                pass
+            elif isinstance(st, ast.Expr) and isinstance(st.value, ast.Call) and self.call_hook is not None:
+                self.ev(st.value)
+            elif isinstance(st, ast.Assign) and len(st.targets) == 1 and self.store_hook is not None and \
+                    self.store_hook(self, st.targets[0], self.ev(st.value)):
                 pass
             elif isinstance(st, ast.Expr) and isinstance(st.value, ast.Constant):
                 pass
